@@ -205,7 +205,9 @@ fn main() {
         });
 
         // (c) DifficultyAdjust
-        let grid: Vec<f64> = (0..=110).map(|i| f64::from(i) / 10.0).collect();
+        // 0.1 steps over [0, 11], plus the extended-limits range of DifficultyAdjust (AR down to -10) in 0.5 steps
+        let mut grid: Vec<f64> = (0..=110).map(|i| f64::from(i) / 10.0).collect();
+        grid.extend((-20..0).map(|i| f64::from(i) / 2.0));
         let total = grid.len() as u64 * 4 * maps.len() as u64;
         let name = format!("lazer-da/{}to{}", cfg.src, cfg.dst);
         ctx.universe(&name, total, |idx, l: &mut Local<'_>| {
